@@ -2,6 +2,8 @@
 // at a time; a token is passed at scheduling points.  The schedule is the generated input.
 #ifndef VERIF_SCHED_HH
 #define VERIF_SCHED_HH
+#include <atomic>
+#include <chrono>
 #include <condition_variable>
 #include <cstdio>
 #include <cstdlib>
@@ -10,6 +12,7 @@
 #include <mutex>
 #include <sstream>
 #include <string>
+#include <thread>
 #include <vector>
 namespace vs {
 struct Sched {
@@ -31,6 +34,15 @@ struct Sched {
   long decision = 0;
   int last = -1;
   bool deadlock = false;
+  // Fallback (DESIGN 1.3): if the token holder does not reach a scheduling point for STALL_MS (it
+  // blocks on something the scheduler does not own, e.g. the std::mutex of MutexWrapped held by a
+  // descheduled actor - or by itself), all gating is dropped and the actors run freely.
+  std::atomic<bool> free_run{false};
+  std::atomic<long> ticks{0};
+  int outcome = 0;  // 0 scheduled to the end, 1 completed after falling back to free running,
+                    // 2 did not complete even when running freely (real deadlock)
+  static constexpr int STALL_MS = 4000;
+  static constexpr int FREE_MS = 8000;
   std::vector<std::string> decisions;  // "idx:runnable ids:chosen"
 
   int add(const std::string& n, bool daemon = false) {
@@ -41,33 +53,74 @@ struct Sched {
   // --- called by actor threads
   void start(int me) {
     std::unique_lock<std::mutex> l(m);
-    cv.wait(l, [&] { return current == me; });
+    cv.wait(l, [&] { return current == me || free_run; });
   }
   void yield(int me) {
+    ++ticks;
     std::unique_lock<std::mutex> l(m);
+    if (free_run) return;
     current = -1;
     cv.notify_all();
-    cv.wait(l, [&] { return current == me; });
+    cv.wait(l, [&] { return current == me || free_run; });
   }
   void block(int me, std::function<bool()> c) {
-    std::unique_lock<std::mutex> l(m);
-    actors[me].st = BLOCKED;
-    actors[me].cond = c;
-    current = -1;
-    cv.notify_all();
-    cv.wait(l, [&] { return current == me; });
+    ++ticks;
+    {
+      std::unique_lock<std::mutex> l(m);
+      if (!free_run) {
+        actors[me].st = BLOCKED;
+        actors[me].cond = c;
+        current = -1;
+        cv.notify_all();
+        cv.wait(l, [&] { return current == me || free_run; });
+        if (!free_run) return;
+        actors[me].st = RUNNABLE;
+        actors[me].cond = nullptr;
+      }
+    }
+    for (;;) {  // free running: poll the condition
+      {
+        std::unique_lock<std::mutex> l(m);
+        if (c()) return;
+      }
+      std::this_thread::sleep_for(std::chrono::milliseconds(1));
+    }
   }
   void done(int me) {
+    ++ticks;
     std::unique_lock<std::mutex> l(m);
     actors[me].st = DONE;
     current = -1;
     cv.notify_all();
   }
   // --- controller: returns when all non-daemon actors are done or nothing is runnable
+  bool users_done() {
+    for (auto& a : actors)
+      if (!a.daemon && a.st != DONE) return false;
+    return true;
+  }
   void run() {
     std::unique_lock<std::mutex> l(m);
     for (;;) {
-      cv.wait(l, [&] { return current == -1; });
+      // wait for the token; give up gating when nothing reaches a scheduling point for STALL_MS
+      long seen = ticks;
+      int waited = 0;
+      while (!cv.wait_for(l, std::chrono::milliseconds(100), [&] { return current == -1; })) {
+        if (ticks != seen) {
+          seen = ticks;
+          waited = 0;
+        } else if ((waited += 100) >= STALL_MS) {
+          free_run = true;
+          cv.notify_all();
+          int t = 0;
+          while (!users_done() && t < FREE_MS) {
+            cv.wait_for(l, std::chrono::milliseconds(50));
+            t += 50;
+          }
+          outcome = users_done() ? 1 : 2;
+          return;
+        }
+      }
       std::vector<int> r;
       bool userdone = true;
       for (size_t i = 0; i < actors.size(); ++i) {
